@@ -113,7 +113,8 @@ def rest(ctx):
             bad = [b_ for b_ in bad if b_ != "zip" and not b_.endswith("::zip")]
     ctx.ob("C01.f", "add_patterns:enumerates-the-given-patterns", ok_en and not bad, "enumerate over %s; reordering/filtering calls %s" % ([S.vstr(e[3][0])[:40] for e in en][:2], bad), ap.loc())
     n_new = 0
-    for body in [ap] + list(F.closures_of(ap)):
+    from .common import fn_items_of
+    for body in [ap] + list(F.closures_of(ap)) + fn_items_of(F, ap):
         if body is ap:
             ex_b, ps_b = ex, paths
         else:
@@ -123,7 +124,7 @@ def rest(ctx):
                 n_new += 1
                 idx = S.fstr(pn[3][1])
                 txt = S.fstr(ex_b.deref_val(p, pn[3][0]) if pn[3][0][0] == "ref" else pn[3][0])
-                m = re.match(r"^\(?(item@bb\d+|arg2)\)?\.%s$" % idx_pos, idx)
+                m = re.match(r"^\(?(item@bb\d+|arg2%s)\)?\.%s$" % ("" if body.kind == "Closure" else "|arg1", idx_pos), idx)
                 ok = m is not None and (m.group(1) + "." + ("1" if idx_pos == "0" else "0")) in txt.replace("(", "").replace(")", "")
                 ctx.ob("C01.f", "add_patterns:token-type-is-the-enumerate-index", ok,
                        "Pattern::new(%s, %s) (second argument must be the unmodified index of the pair the text comes from)" % (txt[:50], idx), body.loc())
